@@ -53,13 +53,16 @@ class _MixtureOfProductDistribution(NamedTuple):
             elif isinstance(d, _BatchedTruncNormDistributions):
                 active_mus = d.mu[active_indices]
                 active_sigmas = d.sigma[active_indices]
-                ret[:, i] = _truncnorm.rvs(
+                samples = _truncnorm.rvs(
                     a=(d.low - active_mus) / active_sigmas,
                     b=(d.high - active_mus) / active_sigmas,
                     loc=active_mus,
                     scale=active_sigmas,
                     random_state=rng,
                 )
+                # The quantile function cannot represent points further than 100 sigma from a
+                # kernel's centre, e.g., when observations were made with another range.
+                ret[:, i] = np.clip(samples, d.low, d.high)
             elif isinstance(d, _BatchedDiscreteTruncNormDistributions):
                 active_mus = d.mu[active_indices]
                 active_sigmas = d.sigma[active_indices]
